@@ -1,2 +1,77 @@
 import NSG.Model.Coord
-/-! # C09 (theorems under construction) -/
+/-! # C09 — bad or out-of-order messages are rejected without any effect on anyone
+
+`s ≈ s'` (`SameGame`) : identical agent tables, membership, slots, start event, trajectory files and
+connection phases, i.e. nothing any agent could ever observe differs. -/
+namespace NSG.Coord
+
+structure SameGame (s s' : St) : Prop where
+  agents : s'.agents = s.agents
+  ids : s'.ids = s.ids
+  slots : s'.slots = s.slots
+  startEv : s'.startEv = s.startEv
+  files : s'.files = s.files
+  mute : s'.mute = s.mute
+  conn : ∀ d, s'.conn d = s.conn d
+
+/-- an error answer to a reading, healthy connection: exactly one reply with that code, nothing changed -/
+theorem emit_error (s : St) (c : Nat) (r : Reply) (hc : s.conn c = .reading) (hm : s.mute c = false) :
+    (emit s c r).2 = [.reply c r] ∧ SameGame s (emit s c r).1 := by
+  simp only [emit, hm]
+  refine ⟨rfl, ⟨rfl, rfl, rfl, rfl, rfl, rfl, ?_⟩⟩
+  intro d; simp only [St.setConn]; split <;> simp_all
+
+def isError (r : Reply) : Prop := r.code = .badRequest ∨ r.code = .forbidden
+
+/-- Every message of the malformed / unsupported / out-of-order classes is answered with exactly one
+error reply to its sender and changes nothing.  `Rejected s c m o` enumerates the classes:
+ * `bad`: undecodable bytes, invalid JSON, unknown type or parameter, missing or invalid parameter
+   (the decoder refuses it or a required parameter is missing - obligation `gen_C09_params_validated`);
+ * a second JoinGame; a JoinGame with an unknown role;
+ * a game action or ResetGame from a connection that has not joined;
+ * a game action the world cannot process (it raised);
+ * a game action after the episode has ended (FORBIDDEN). -/
+inductive Rejected (s : St) (c : Nat) : Msg → Oracle → Prop
+  | bad (o) : Rejected s c .bad o
+  | secondJoin (n r o) : s.inGame c = true → Rejected s c (.join n r) o
+  | unknownRole (n o) : Rejected s c (.join n none) o
+  | resetNotJoined (t o) : s.inGame c = false → Rejected s c (.reset t) o
+  | gameNotJoined (a o) : s.inGame c = false → Rejected s c (.game a) o
+  | worldRaised (a o) : o.stepView = none → (s.agent c).ended = false → Rejected s c (.game a) o
+  | afterEnd (a o) : s.inGame c = true → (s.agent c).ended = true → Rejected s c (.game a) o
+
+theorem C09_rejected (S : Settings) (s : St) (c : Nat) (m : Msg) (o : Oracle)
+    (hc : s.conn c = .reading) (hm : s.mute c = false) (hr : Rejected s c m o) :
+    ∃ r, isError r ∧ (deliver S s (.msg c m o)).2 = [.reply c r] ∧ SameGame s (deliver S s (.msg c m o)).1 := by
+  simp only [deliver, hc]
+  cases hr with
+  | bad o => exact ⟨_, Or.inl rfl, emit_error s c _ hc hm⟩
+  | secondJoin n r o h => exact ⟨_, Or.inl rfl, by simpa [handle, badRequest, h] using emit_error s c _ hc hm⟩
+  | unknownRole n o =>
+    by_cases h : s.inGame c = true
+    · exact ⟨_, Or.inl rfl, by simpa [handle, badRequest, h] using emit_error s c _ hc hm⟩
+    · exact ⟨_, Or.inl rfl, by simpa [handle, badRequest, h] using emit_error s c _ hc hm⟩
+  | resetNotJoined t o h => exact ⟨_, Or.inl rfl, by simpa [handle, badRequest, h] using emit_error s c _ hc hm⟩
+  | gameNotJoined a o h => exact ⟨_, Or.inl rfl, by simpa [handle, badRequest, h] using emit_error s c _ hc hm⟩
+  | worldRaised a o h he =>
+    by_cases hg : s.inGame c = true
+    · exact ⟨_, Or.inl rfl, by simpa [handle, badRequest, hg, he, h] using emit_error s c _ hc hm⟩
+    · exact ⟨_, Or.inl rfl, by simpa [handle, badRequest, hg] using emit_error s c _ hc hm⟩
+  | afterEnd a o hg he =>
+    exact ⟨_, Or.inr rfl, by simpa [handle, hg, he] using emit_error s c _ hc hm⟩
+
+/-- Frame consequence: whatever happens afterwards happens exactly as if the bad message had never
+been sent (the two runs continue from indistinguishable states; `deliver` reads nothing else). -/
+theorem SameGame.eq_of (s s' : St) (h : SameGame s s') : s' = s := by
+  cases s; cases s'; cases h; simp_all; funext d; simp_all
+
+theorem C09_differential (S : Settings) (s : St) (c : Nat) (m : Msg) (o : Oracle) (rest : List Ev)
+    (hc : s.conn c = .reading) (hm : s.mute c = false) (hr : Rejected s c m o) :
+    ∃ r, isError r ∧ run S s (.msg c m o :: rest) = ((run S s rest).1, .reply c r :: (run S s rest).2) := by
+  obtain ⟨r, he, ho, hs⟩ := C09_rejected S s c m o hc hm hr
+  refine ⟨r, he, ?_⟩
+  have := SameGame.eq_of _ _ hs
+  simp only [run]
+  rw [this, ho]; rfl
+
+end NSG.Coord
